@@ -16,7 +16,7 @@ ALL = [p for p in ["C%02d" % i for i in range(1, 21)] if p in PROPS]
 
 def main():
     ids = sys.argv[1:] or sorted(d for d in os.listdir(os.path.join(V, "seeded")) if os.path.isdir(os.path.join(V, "seeded", d)))
-    path = os.path.join(V, "seeded", "MATRIX.json")
+    path = os.environ.get("SEED_MATRIX", os.path.join(V, "seeded", "MATRIX.json"))
     mat = json.load(open(path)) if os.path.exists(path) else {}
     env = dict(os.environ, CFDP_SCRATCH=os.environ.get("CFDP_SCRATCH", "/tmp/w/matrix"), CFDP_TAG=os.environ.get("CFDP_TAG", "matrix"))
     for sid in ids:
